@@ -10,7 +10,7 @@ from . import absapi, core, gen, pipeline, tlc
 
 PKG = 'acme.call.v1'
 MODULE = 'acme.call_v1'
-FIELDS = ['name', 'count', 'flag', 'tags', 'labels', 'inner.name', 'kind', 'class', 'blob', 'request_id', 'opt_request_id']
+FIELDS = ['name', 'count', 'flag', 'tags', 'labels', 'inner.name', 'kind', 'class', 'blob', 'vals', 'request_id', 'opt_request_id']
 # concrete values for the abstract variants 1 and 2 (3 = explicitly empty string, ids only)
 VALUES = {
     'name': {1: 'things/a', 2: 'things/b'},
@@ -22,6 +22,7 @@ VALUES = {
     'kind': {1: 'ALPHA', 2: 'BETA'},
     'class': {1: 'c1', 2: 'c2'},
     'blob': {1: b'abcd', 2: b'\x00\xffz'},          # bytes: a dict request must carry them verbatim (no base64 round trip)
+    'vals': {1: [1.5], 2: ['s', True]},           # repeated google.protobuf.Value (dynamically typed elements)
     'request_id': {1: 'id-one', 2: 'id-two', 3: ''},
     'opt_request_id': {1: 'oid-one', 2: 'oid-two', 3: ''},
 }
@@ -33,6 +34,7 @@ METHODS = {
     'DeleteThing': dict(snake='delete_thing', req='Req', resp=None),
     'UpdateThing': dict(snake='update_thing', req='Req', resp='Thing'),
     'CreateThing': dict(snake='create_thing', req='Req', resp='Thing'),
+    'TouchThing': dict(snake='touch_thing', req='Req', resp='Thing'),
     'PlainThing': dict(snake='plain_thing', req='Req', resp='Thing'),
     'Import': dict(snake='import_', req='Req', resp='Thing'),
     'CreateChannel': dict(snake='create_channel', req='Req', resp='Thing'),
@@ -47,6 +49,7 @@ def carrier_api():
     req_fields = [dict(name='name'), dict(name='count', type='int32'), dict(name='flag', type='bool'),
                   dict(name='tags', repeated=True), dict(name='labels', type='map:string,string'),
                   dict(name='inner', type='Inner'), dict(name='kind', type='enum:Kind'), dict(name='class'), dict(name='blob', type='bytes'),
+                  dict(name='vals', type='google.protobuf.Value', repeated=True),
                   dict(name='request_id', uuid4=True), dict(name='opt_request_id', uuid4=True, optional=True),
                   dict(name='req_id_required', uuid4=True, required=True), dict(name='plain_str')]
     dep = dict(name='other/dep/v1/dep.proto', package='other.dep.v1', target=False, imports=[],
@@ -65,6 +68,7 @@ def carrier_api():
         m('DeleteThing', 'delete', out='google.protobuf.Empty', sigs=['name']),
         m('UpdateThing', 'update', sigs=['inner.name,tags', 'labels,kind,class,flag,opt_request_id']),
         m('CreateThing', 'create', sigs=['name']),
+        m('TouchThing', 'touch', sigs=['name,tags,count', 'name,count', 'vals']),
         m('PlainThing', 'plain'),
         m('Import', 'import'),
         m('CreateChannel', 'createChannel', ss=True),
@@ -286,6 +290,9 @@ def get_cases(chk, quick, seed, select=None, n_quick=2500, dep_enum=False):
     chk.add_tlc(r2, 'Call case emission (small scope)')
     if select:
         cases = [c for c in cases if select(c)]
+    # proto-plus cannot build a repeated google.protobuf.Value field from a mapping / constructor argument (a list is marshalled
+    # into ONE list-valued Value): such a field reaches a request through append/extend (msg form) or a flattened keyword only
+    cases = [c for c in cases if not (c['form'] in ('dict', 'both') and any(v.get('vals') for v in c['args']['reqs']))]
     rnd = random.Random(seed)
     if quick and len(cases) > n_quick:
         cases = rnd.sample(cases, n_quick)
